@@ -23,21 +23,17 @@ import (
 	"github.com/cloudwego/thriftgo/parser"
 )
 
-func typeHasEnum(t *parser.Type, visited map[*parser.Type]bool) bool {
-	if t == nil {
+// ctxHasEnum reports whether reading the value needs the `enum` tmp var.
+// It walks the resolved sub-contexts rather than Type.KeyType/ValueType,
+// which are nil for a typedef of a container.
+func ctxHasEnum(c *golang.ReadWriteContext) bool {
+	if c == nil {
 		return false
 	}
-	if t.Category == parser.Category_Enum {
+	if c.Type.Category == parser.Category_Enum {
 		return true
 	}
-	if visited[t] {
-		return false
-	}
-	if visited == nil {
-		visited = map[*parser.Type]bool{}
-	}
-	visited[t] = true
-	return typeHasEnum(t.KeyType, visited) || typeHasEnum(t.ValueType, visited)
+	return ctxHasEnum(c.KeyCtx) || ctxHasEnum(c.ValCtx)
 }
 
 func (g *FastGoBackend) genFastRead(w *codewriter, scope *golang.Scope, s *golang.StructLike) {
@@ -65,7 +61,12 @@ func (g *FastGoBackend) genFastRead(w *codewriter, scope *golang.Scope, s *golan
 	hasEnum := false
 	ff := getSortedFields(s)
 	for _, f := range ff {
-		if typeHasEnum(f.Type, nil) {
+		rwctx, err := g.utils.MkRWCtx(scope, f)
+		if err != nil {
+			// never goes here, should fail early in generator/golang pkg
+			panic(err)
+		}
+		if ctxHasEnum(rwctx) {
 			hasEnum = true
 		}
 		if f.Requiredness == parser.FieldType_Required {
